@@ -1,4 +1,5 @@
 import TvCore.Props.C05
+import TvCore.Props.C05Late
 #print axioms TV.C05.step_adds_tick
 #print axioms TV.C05.elapsed_after_k
 #print axioms TV.C05.consistency
@@ -13,3 +14,8 @@ import TvCore.Props.C05
 #print axioms TV.C05.witness_submilli
 #print axioms TV.C05.timer_whole_ms_instance
 #print axioms TV.C05.stepEnd_keeps_running
+#print axioms TV.C05.synced_register
+#print axioms TV.C05.synced_stepEnd
+#print axioms TV.C05.synced_setHost
+#print axioms TV.C05.synced_run
+#print axioms TV.C05.simNow_at_window_start
